@@ -790,11 +790,50 @@ def gen_mod_fn(ctx, rid):
     return q.anchor_fn(ctx, rid, "generate_types_mod", fns)
 
 
+LOOP_WRAP = {}      # id(loop body node) -> (iterated term, body template with the symbol BODY where the source body goes)
+
+
+def loop_body_term(N, body, syms):
+    """the loop body's term, with the tests of a filtered source in front of it"""
+    from .core.norm import rewrite
+    t = N.term(body, syms)
+    w = LOOP_WRAP.get(id(body))
+    if w is None:
+        return t
+    it, tmpl = w
+    old, new = ("elem", it), ("elem", ("field", ("field", ("param", 0), "type_registry"), "types"))
+    t = rewrite(t, lambda n: new if n == old else None)
+    from .core.norm import _mk_if
+    def put(n):
+        if n == ("sym", "BODY"):
+            return t
+        if n[0] == "if" and any(x == ("sym", "BODY") for x in subterms(n)) and n[2] != ("sym", "BODY") and n[3] != ("sym", "BODY"):
+            return None
+        return None
+    r = rewrite(tmpl, put)
+    # rebuild the conditionals around the body so that the boolean identities see the real branches
+    def rebuild(n):
+        if n[0] == "if":
+            return _mk_if(n[1], n[2], n[3])
+        return None
+    return rewrite(r, rebuild)
+
+
 def definition_loop(ctx, rid, fn):
     """the `for` over registry entries in generate_types_mod: (loop match node, pat, body)"""
+    from .core.norm import _mk_for
+    N = _norm(ctx, fn)
     for n in walk(fn["body"]):
         fl = as_for_loop(n)
-        if fl is not None and show(_norm(ctx, fn).term(fl[1])) == "P0.type_registry.types":
+        if fl is None:
+            continue
+        it = N.term(fl[1])
+        if show(it) == "P0.type_registry.types":
+            return n, fl[0], fl[2]
+        # a loop over the entries that pass a filter (possibly bound to a name first) is the loop over all entries whose body starts with the test
+        probe = _mk_for(it, ("sym", "BODY"))
+        if probe[0] == "for" and show(probe[1]) == "P0.type_registry.types":
+            LOOP_WRAP[id(fl[2])] = (it, probe[2])
             return n, fl[0], fl[2]
     ctx.bad(rid, "missing-anchor/definition-loop", fn["sp"], "no loop over the registry's entries in generate_types_mod")
     return None
@@ -817,7 +856,16 @@ def keep_first_or_error(ctx, rid):
     m = ms[0]
     E = "elem(P0.type_registry.types)"
     arms = arms_by_variant(m)
-    sc = show(N.term(m["scrut"]))
+
+    def fixE(t):
+        # the element of a filtered source is the element of the registry's list (the filter only decides whether the body runs)
+        w = LOOP_WRAP.get(id(body))
+        if w is None:
+            return t
+        from .core.norm import rewrite
+        old, new = ("elem", w[0]), ("elem", ("field", ("field", ("param", 0), "type_registry"), "types"))
+        return rewrite(t, lambda n: new if n == old else None)
+    sc = show(fixE(N.term(m["scrut"])))
     ctx.expect(sc.startswith("BTreeMap::entry(") and sc.endswith(",%s.ty.path)" % E), rid, "keep-first/key", site(m),
                "the module map is keyed by the entry's full path", "entry key term: " + sc[-200:])
     va = arms.get("Vacant")
@@ -828,7 +876,7 @@ def keep_first_or_error(ctx, rid):
     def arm_term(arm):
         # an arm that yields Ok(()) / Err(e) to a `?` around the match (the match moved into a fallible helper) is the statement it stands for
         from .core.norm import _mk_try, _is_unit
-        t = N.term(arm["body"], arm_syms(arm["pat"]))
+        t = fixE(N.term(arm["body"], arm_syms(arm["pat"])))
         if str(strip(arm["body"]).get("ty", "")).startswith(("std::result::Result<", "core::result::Result<")):
             if t[0] == "seq":
                 tail = _mk_try(t[2])
@@ -875,12 +923,12 @@ def definition_predicate(ctx, rid, require_skip_substituted=True):
         if peel(p.get("ty", "")).endswith("module_ir::ModuleIR") and origin[0] == "let" and p.get("mut"):
             root = lid
     syms = {root: "ROOT"} if root is not None else {}
-    t = show(N.term(body, syms), 10 ** 6)
+    t = show(loop_body_term(N, body, syms), 10 ** 6)
     E = "elem(P0.type_registry.types)"
     FLAT = "DerivesRegistry::flatten_recursive_derives(P0.settings.derives,P0.type_registry)?"
     IR = "TypeGenerator::create_type_ir(P0,%s.ty,%s)?" % (E, FLAT)
-    exp = ("if(TypeSubstitutes::contains(P0.settings.substitutes,%s.ty.path.segments)){'()'}else{if(slice::is_empty(Path::namespace(%s.ty.path))){'()'}else{"
-           "if(let v1::Some($)=%s){match(BTreeMap::entry(ModuleIR::get_or_insert_submodule(ROOT,Path::namespace(%s.ty.path)).types,%s.ty.path)){%s}}else{'()'}}}") % (E, E, IR, E, E, ANY)
+    exp = ("if((TypeSubstitutes::contains(P0.settings.substitutes,%s.ty.path.segments)||slice::is_empty(Path::namespace(%s.ty.path)))){'()'}else{"
+           "if(let v1::Some($)=%s){match(BTreeMap::entry(ModuleIR::get_or_insert_submodule(ROOT,Path::namespace(%s.ty.path)).types,%s.ty.path)){%s}}else{'()'}}") % (E, E, IR, E, E, ANY)
     exps = [exp]
     if not require_skip_substituted:
         # defining a substituted type as well leaves the module closed (an unreferenced extra item)
